@@ -47,13 +47,23 @@ class Boom(Exception):
     pass
 
 
+class BadRepr(object):
+    def __repr__(self):
+        raise ValueError('this object cannot be printed')
+    __str__ = __repr__
+
+
 GOOD = ['1+2*3', 'SUM(1,2,3)', 'IF(1<2,"y","n")', '"a"&"b"', 'aa+bb', 'REC(aa,2)', 'A1+1', 'SUM(A1:B2)', '{1,2,3}', 'MAX(LL)', 'LARGE(LL,2)', 'INDEX(MM,2,1)', 'CONCATENATE("x",aa)',
         '-aa', '2^10', '50%', 'ROUND(2.567,1)', 'AND(TRUE,FALSE)', 'MEDIAN(LL)', 'SUMPRODUCT(LL,LL)', 'LEN("hello")', 'DATE(2020,1,31)', 'LL', 'MM', 'IFERROR(1/0,7)',
         'MATCH(3,LL,0)', 'SMALL(LL,1)', 'RANK(3,LL)', 'MODE.SNGL(LL)', 'TRANSPOSE(MM)', 'COUNT(LL)', 'LL+1', 'LL*LL', 'MM&"x"', 'SUM(MM)', 'STDEV.S(LL)',
         # equal values of different types through the same functions (a value-keyed memo would alias 1.0 / TRUE / 1, 0.0 / FALSE / -0.0)
         'MEDIAN(1.0)', 'MEDIAN(TRUE)', 'MEDIAN(1)', 'MAXA(TRUE,FALSE)', 'MAXA(1.0,0.0)', 'MINA(FALSE,TRUE)', 'MINA(0.0,1.0)', 'AVERAGE(1.0,0.0)',
         'AVERAGE(1,0)', 'LARGE({1.0,0.0},1)', 'LARGE({1,0},1)', 'SUM(1.0,0.0)', 'SUM(TRUE,FALSE)', 'MAX(0.0,-1)', 'MAX(0,-1)', 'MEDIAN(0.0)', 'MEDIAN(FALSE)',
-        'ABS(1.0)', 'ABS(TRUE)', 'ABS(1)', 'INT(1.0)', 'ROUND(TRUE,0)', 'MAXA(1.0,0.0)=TRUE', 'MEDIAN(1.0)&""', 'MEDIAN(TRUE)&""', 'MEDIAN(1)&""']
+        'ABS(1.0)', 'ABS(TRUE)', 'ABS(1)', 'INT(1.0)', 'ROUND(TRUE,0)', 'MAXA(1.0,0.0)=TRUE', 'MEDIAN(1.0)&""', 'MEDIAN(TRUE)&""', 'MEDIAN(1)&""',
+        # values that cannot be printed (an int beyond the interpreter's int-to-str limit, an object whose repr raises) as
+        # arguments and results of calls: debug output, if any, must not change the outcome
+        'ISNUMBER(FACT(2000))', 'IF(FACT(2000)>1,"big","small")', 'ISNUMBER(9^9999)', 'ISTEXT(weird)', 'IF(ISBLANK(weird),1,2)', 'ISNUMBER(REC(weird,1))',
+        'ISERROR(KEEPW(weird))']
 BAD = ['1+', '(1', 'NOPE()', 'nope', '1/0', '#N/A', '#REF!+1', 'SUM(', '"abc', '1 2', u'\xe9', '@', 'IF(', '))', 'BOOM()', 'XL()', 'A1:', 'LISTEN', '1+BOOM()+2', 'SUM(1,XL())',
        'SQRT(-1)', 'VLOOKUP(1,2)', 'INDEX(LL,99)', 'MATCH(99,LL,0)', 'DATE("x",1,1)', '{1,2', 'F(', 'RAISECELL',
        # failing calls under something that observes or discards errors (debug on / off must agree here too)
@@ -71,6 +81,8 @@ def build(debug):
     for k, v in host.items():
         p.set_variable(k, v)
     p.set_function('REC', lambda *a: list(a))
+    p.set_variable('weird', BadRepr())
+    p.set_function('KEEPW', lambda x: x)
 
     def boom(*a):
         raise Boom('x')
@@ -317,7 +329,7 @@ def all_functions_on_lists():
     return fs
 
 
-ALIAS = GOOD[GOOD.index('MEDIAN(1.0)'):]
+ALIAS = GOOD[GOOD.index('MEDIAN(1.0)'):GOOD.index('ISNUMBER(FACT(2000))')]
 
 
 def iso_items(rng, n, all_pairs):
